@@ -230,7 +230,7 @@ func c04Classify(c *fw.Ctx, id string, ec excClass, pos string, kind string, see
 // ---- fault scripts ----
 
 var c04FaultKinds = []string{"move", "split", "merge", "offline", "opening", "too-busy", "call-queue", "throttle", "abort-exc", "reset",
-	"server-down", "meta-move", "app-exception", "unknown-table", "split-meta-lag", "meta-row-missing"}
+	"server-down", "meta-move", "app-exception", "unknown-table", "split-meta-lag", "meta-row-missing", "crash-reassign"}
 
 type c04Script struct {
 	Seed   int64
@@ -326,13 +326,44 @@ func runC04Script(c *fw.Ctx, id string, sc c04Script) {
 			issue([]string{"get", "put", "append", "batch"}[r.Intn(4)], keys[r.Intn(len(keys))], "t", false)
 		}
 	}
+	downForGood := map[string]bool{}
+	// rehome: whatever sits on a dead server goes to a server that is alive now
+	rehome := func(pick int) {
+		mu.Lock()
+		var alive []string
+		for _, a := range cl.ServerAddrs() {
+			if !downForGood[a] {
+				alive = append(alive, a)
+			}
+		}
+		dead := map[string]bool{}
+		for a, d := range downForGood {
+			dead[a] = d
+		}
+		mu.Unlock()
+		target := alive[pick%len(alive)]
+		for _, rg := range cl.Regions("t") {
+			if dead[rg.Server] {
+				cl.MoveRegion(rg.Name, target)
+			}
+		}
+		if dead[cl.MetaAddr()] {
+			cl.SetMeta(target)
+		}
+	}
 	someRequests(4) // warm the cache so that faults hit cached state
 	wg.Wait()
 	for _, f := range sc.Faults {
 		regsNow := cl.Regions("t")
 		reg := regsNow[r.Intn(len(regsNow))]
 		addrs := cl.ServerAddrs()
-		other := addrs[r.Intn(len(addrs))]
+		var live []string
+		for _, a := range addrs {
+			if !downForGood[a] {
+				live = append(live, a)
+			}
+		}
+		other := live[r.Intn(len(live))]
 		c.Count("fault_"+f, 1)
 		switch f {
 		case "move":
@@ -388,10 +419,43 @@ func runC04Script(c *fw.Ctx, id string, sc c04Script) {
 			cl.Server(reg.Server).KillConns("reset")
 		case "server-down":
 			srv := cl.Server(reg.Server)
+			if downForGood[srv.Addr] {
+				break // (its regions are about to be reassigned)
+			}
 			if srv.Addr != cl.MetaAddr() || r.Intn(2) == 0 {
 				srv.SetDown(true)
 				srv.KillConns("crash")
 				time.AfterFunc(time.Duration(50+r.Intn(200))*time.Millisecond, func() { srv.SetDown(false) })
+			}
+		case "crash-reassign":
+			// the server dies for good (connections refused) while hbase:meta still
+			// names it; a little later its regions (and meta, if it hosted it) are
+			// reassigned to the servers that are left
+			var up []string
+			for _, a := range addrs {
+				if !downForGood[a] {
+					up = append(up, a)
+				}
+			}
+			if len(up) >= 2 {
+				victim := reg.Server
+				if downForGood[victim] {
+					victim = up[r.Intn(len(up))]
+				}
+				var rest []string
+				for _, a := range up {
+					if a != victim {
+						rest = append(rest, a)
+					}
+				}
+				mu.Lock()
+				downForGood[victim] = true
+				mu.Unlock()
+				srv := cl.Server(victim)
+				srv.SetDown(true)
+				srv.KillConns("crash")
+				pick := r.Intn(1 << 20)
+				time.AfterFunc(time.Duration(30+r.Intn(120))*time.Millisecond, func() { rehome(pick) })
 			}
 		case "meta-move":
 			cl.SetMeta(other)
@@ -404,6 +468,11 @@ func runC04Script(c *fw.Ctx, id string, sc c04Script) {
 		if r.Intn(2) == 0 {
 			time.Sleep(time.Duration(r.Intn(30)) * time.Millisecond)
 		}
+	}
+	if len(downForGood) > 0 {
+		// a split or merge may have put a region on a dead server after the reassignment
+		time.Sleep(160 * time.Millisecond)
+		rehome(0)
 	}
 	// the cluster is stable from here on: everything issued must complete
 	finished := within(60*time.Second, wg.Wait)
